@@ -10,7 +10,7 @@ def events(out):
 class P(StreamProperty):
     pid = 'C11'
     module = 'OpenFecVerif.Props.C11'
-    theorems = ['C11_rs_events_exactly_missing', 'C11_rs_stored_per_policy', 'C11_dest_policy', 'C11_rs_never_for_received', 'C11_ldpc_finish_events']
+    theorems = ['C11_rs_events_exactly_missing', 'C11_rs_stored_per_policy', 'C11_dest_policy', 'C11_rs_never_for_received', 'C11_ldpc_finish_events', 'C11_ldpc_recv_events']
     rule = ('decoder and encoder-and-decoder sessions with a registered callback returning a buffer / NULL / a mix (by ESI parity), all receive sets for n<=nmax, '
             'both APIs, with finish, loss patterns sampled per decoding stage for LDPC (IT only, ML); oracle on the real library: the multiset of '
             'callback ESIs over the session = source symbols available at the end whose table entry is not an application pointer, each exactly once '
